@@ -17,6 +17,7 @@ import (
 
 func TestMain(m *testing.M) {
 	env.Quiet()
+	env.UseClientAllocator() // records live in the client's recycling allocator, as in the running node
 	pbt.RegisterReplay("tree", func(raw json.RawMessage) error {
 		var c sim.Case
 		if err := json.Unmarshal(raw, &c); err != nil {
